@@ -13,7 +13,11 @@
 // and for every codec under both encoder configurations (-xzPath pointing at the real xz and at
 // a non-existent path); the .lzma header carries the true uncompressed size; the LZMA output is
 // accepted by independent decoders (liblzma through python3 `lzma` FORMAT_ALONE, and
-// `xz -d --format=lzma`) which return the (filtered) input.
+// `xz -d --format=lzma`, and the ulikunitz reader with the minimal DictCap, i.e. with the window
+// the header announces) which return the (filtered) input. gap2.go adds the inputs and call
+// sequences these oracles need to see block-boundary, dictionary-size and buffer-reuse mistakes:
+// branches around every 4 KiB multiple of 64 KiB … 256 KiB inputs, far matches in non power of two
+// lengths, and sequences of calls whose results are all kept and judged afterwards.
 package c08
 
 import (
@@ -91,16 +95,23 @@ func b2s(b bool) string {
 // expand turns the case arguments into the input bytes: either "data" (hex) or a "recipe"
 // kind:seed:len expanded deterministically (large inputs stay out of the replay files).
 func expand(c core.Case) []byte {
+	var b []byte
 	if rc, ok := c.Args["recipe"]; ok {
-		f := strings.Split(rc, ":")
-		if len(f) != 3 {
-			panic("harness: bad recipe " + rc)
-		}
-		seed, _ := strconv.ParseInt(f[1], 10, 64)
-		n, _ := strconv.Atoi(f[2])
-		return genBytes(f[0], rand.New(rand.NewSource(seed)), n)
+		b = expandRecipe(rc)
+	} else {
+		b = core.UnHex(c.Args["data"])
 	}
-	return core.UnHex(c.Args["data"])
+	return overlay(b, c.Args["plant"], c.Args["copy"])
+}
+
+func expandRecipe(rc string) []byte {
+	f := strings.Split(rc, ":")
+	if len(f) != 3 {
+		panic("harness: bad recipe " + rc)
+	}
+	seed, _ := strconv.ParseInt(f[1], 10, 64)
+	n, _ := strconv.Atoi(f[2])
+	return genBytes(f[0], rand.New(rand.NewSource(seed)), n)
 }
 
 var dataKinds = []string{"rand", "zeros", "text", "x86", "dense", "hibytes", "period", "alpha"}
@@ -403,7 +414,9 @@ func (prop) Gen(r *rand.Rand, tier string) []core.Case {
 		}
 		cs = append(cs, newCase("zlibdec-"+kind, "zlibdec", "frame", core.Hex(frame)))
 	}
-	return cs
+	// ---- (5)..(7) gap closing round 2 (gap2.go): block-boundary branches, far matches, stateful
+	// sequences. Drawn last (the streams above keep their PRNG sequence), run first.
+	return append(genGap2(r, tier), cs...)
 }
 
 // ---------------------------------------------------------------- independent decoders
@@ -634,8 +647,10 @@ func (prop) Run(c core.Case) core.Outcome {
 		data := expand(c)
 		d := append([]byte(nil), data...)
 		pos, st2 := compression.X86ConvertVerif(d, ip, st, enc)
-		M("x86-convert", fmt.Sprintf("conv %s %d %d %s", c.Args["enc"], ip, st, core.Hex(data)),
-			fmt.Sprintf("%s %d %d", core.Hex(d), pos, st2))
+		if modelAffordable(data) {
+			M("x86-convert", fmt.Sprintf("conv %s %d %d %s", c.Args["enc"], ip, st, core.Hex(data)),
+				fmt.Sprintf("%s %d %d", core.Hex(d), pos, st2))
+		}
 		changed := 0
 		for i := range d {
 			if d[i] != data[i] {
@@ -708,7 +723,7 @@ func (prop) Run(c core.Case) core.Outcome {
 				inner = append([]byte(nil), orig...)
 				compression.X86ConvertVerif(inner, 0, 0, true)
 				// T2: LZMAX86 = lzma ∘ filter with ip 0, state 0 (model: Framing.lzmax86Encode)
-				if len(orig) <= 1<<17 {
+				if len(orig) <= 1<<17 || modelAffordable(orig) {
 					plain, perr := (&compression.LZMA{}).Decode(append([]byte(nil), encCopy...))
 					exp := "err"
 					if perr == nil {
@@ -727,33 +742,7 @@ func (prop) Run(c core.Case) core.Outcome {
 			out.Checks = append(out.Checks, core.Check{Tag: "O", What: "lzma-header-size", Exp: fmt.Sprint(len(orig)), Got: hdr,
 				Sig: "lzma-header-size:" + impl})
 			// oracle: accepted by independent decoders, which return the (filtered) input
-			tag, pout := liblzmaDecode(encCopy)
-			indep := ""
-			if tag != "unavailable" {
-				indep += "+liblzma"
-				g := tag
-				if tag == "ok" && !bytes.Equal(pout, inner) {
-					g = "ok but " + firstDiff(inner, pout)
-				}
-				out.Checks = append(out.Checks, core.Check{Tag: "O", What: "lzma-independent-decoder(liblzma/python)", Exp: "ok", Got: g,
-					Sig: "lzma-independent:" + impl})
-			}
-			if len(orig) <= 1<<16 {
-				tag, xout := xzDecode(encCopy)
-				if tag != "unavailable" {
-					indep += "+xz"
-					g := tag
-					if tag == "ok" && !bytes.Equal(xout, inner) {
-						g = "ok but " + firstDiff(inner, xout)
-					}
-					out.Checks = append(out.Checks, core.Check{Tag: "O", What: "lzma-independent-decoder(xz -d)", Exp: "ok", Got: g,
-						Sig: "lzma-independent:" + impl})
-				}
-			}
-			if indep == "" {
-				indep = "+none"
-			}
-			out.Class += ":indep=" + indep[1:] // which independent decoders judged this case
+			out.Class += ":indep=" + independentChecks(&out, impl, encCopy, inner, 5<<20)
 			// T2: the header patch of SystemLZMA.Encode on the raw xz output (model: Framing.patchSize)
 			if strings.HasSuffix(impl, "SystemLZMA") && name == "LZMA" && len(encCopy) <= 4096 {
 				if raw, err := xzEncodeRaw(orig); err == nil {
@@ -763,28 +752,7 @@ func (prop) Run(c core.Case) core.Outcome {
 		case "ZLIB":
 			// oracle: the documented framing — 256-byte header, zero except the LE32 payload
 			// size at offset 20, followed by a zlib stream of x
-			fr := "ok"
-			switch {
-			case len(encCopy) < 256:
-				fr = "shorter than the section header"
-			case binary.LittleEndian.Uint32(encCopy[20:24]) != uint32(len(encCopy)-256):
-				fr = fmt.Sprintf("size field %d, payload %d", binary.LittleEndian.Uint32(encCopy[20:24]), len(encCopy)-256)
-			default:
-				for i, b := range encCopy[:256] {
-					if b != 0 && (i < 20 || i >= 24) {
-						fr = fmt.Sprintf("header byte %d = %#x", i, b)
-						break
-					}
-				}
-				if fr == "ok" {
-					zr, err := zlib.NewReader(bytes.NewReader(encCopy[256:]))
-					if err != nil {
-						fr = "payload is not a zlib stream: " + err.Error()
-					} else if pl, err := io.ReadAll(zr); err != nil || !bytes.Equal(pl, orig) {
-						fr = "payload does not inflate to the input"
-					}
-				}
-			}
+			fr := zlibFramingVerdict(encCopy, orig)
 			O("zlib-framing", "ok", fr)
 			if len(encCopy) >= 256 {
 				M("zlib-header", "zlibhdr "+strconv.Itoa(len(encCopy)-256), core.Hex(encCopy[:256]))
@@ -825,6 +793,8 @@ func (prop) Run(c core.Case) core.Outcome {
 			out.Class = "zlibdec:rejected-ambiguous"
 			out.Trivial = true
 		}
+	case "seq":
+		runSeq(c, &out)
 	default:
 		panic("unknown op " + c.Op)
 	}
@@ -867,7 +837,12 @@ func (prop) Shrink(c core.Case) []core.Case {
 					"state": c.Args["state"], "data": core.Hex(s)}})
 			}
 		}
+	case "seq":
+		return shrinkSeq(c)
 	case "conv", "codec":
+		if c.Args["plant"] != "" || c.Args["copy"] != "" {
+			return shrinkOverlaid(c, clone)
+		}
 		if _, ok := c.Args["recipe"]; ok {
 			f := strings.Split(c.Args["recipe"], ":")
 			n, _ := strconv.Atoi(f[2])
